@@ -9,4 +9,8 @@ CHECKS = {
    technique='complete sweep of all operators x all ordered pairs (triples for transitivity) of a 46-value typed pool through the real compiled formulas vs a reference coercion/order table',
    text='All 14 operators x all ordered pairs of a 46-value pool (every type, sign, numeric-looking text, blank, 7 errors) in cell-reference form, literal form and through a real workbook; order axioms (trichotomy, complements, antisymmetry, transitivity on all triples) checked on the fully tabulated relation. Exhaustive over the pool, so measure-zero type boundaries are hit by construction.',
    note='Trusts the reference table mc/ref/ops.py (written from the statement); values outside the pool (extreme magnitudes, padded numeric text, text TRUE/FALSE) are judged for totality only.'),
+ 'C05': dict(engine='E1-history-bfs', design_ref='5/C05',
+   technique='explicit-state BFS over evaluate(access path) histories + exhaustive permutations of first-evaluation order, on the real compiler',
+   text='Every history (depth 2 quick / 3 thorough) of evaluate over all access paths of 18 curated workbooks (every cell, every rectangle of the used area, A:A / 1:1 / A:B forms, list/tuple/generator, sheet-less address), on in-memory and xlsx-backed models, with each returned element compared with a fixed-order reference and each call repeated; plus all permutations of first-evaluation order (<= 6 cells). Order/path dependence needs a specific first-evaluation order, which exhaustive enumeration supplies.',
+   note='Trusts the fixed-order from-scratch evaluation as the reference; quick tier evaluates an evenly spread subset of rectangles (all in thorough).'),
 }
